@@ -60,4 +60,21 @@ SPECS = [
          inputs=[("hto", "bool")], subst={"self.handle_timeout_termination": "hto"}),
     dict(name="dictrb_add_timeout_branch", qual="DictReplayBuffer.add", start=r"^if (not )?self\.handle_timeout_termination", end=None, kind="test",
          inputs=[("hto", "bool")], subst={"self.handle_timeout_termination": "hto"}),
+    # ---- RolloutBuffer / DictRolloutBuffer cursor, reset and get() protocol
+    dict(name="rollout_add_cursor", qual="RolloutBuffer.add", **_CUR),
+    dict(name="dictrollout_add_cursor", qual="DictRolloutBuffer.add", **_CUR),
+    dict(name="base_reset", qual="BaseBuffer.reset", start=None, end=None, inputs=[],
+         subst={"self.pos": "pos", "self.full": "full"}, outputs=[("pos", "Z"), ("full", "bool")]),
+    dict(name="rollout_reset_ready", qual="RolloutBuffer.reset", start=r"^self\.generator_ready = ", end=None, kind="expr", ret="bool", inputs=[]),
+    dict(name="dictrollout_reset_ready", qual="DictRolloutBuffer.reset", start=r"^self\.generator_ready = ", end=None, kind="expr", ret="bool", inputs=[]),
+    dict(name="rollout_get_requires", qual="RolloutBuffer.get", start=r"^assert ", end=None, kind="subexpr", pick=r"(not )?self\.full", ret="bool",
+         inputs=[("full", "bool")], subst={"self.full": "full"}),
+    dict(name="dictrollout_get_requires", qual="DictRolloutBuffer.get", start=r"^assert ", end=None, kind="subexpr", pick=r"(not )?self\.full", ret="bool",
+         inputs=[("full", "bool")], subst={"self.full": "full"}),
+    dict(name="rollout_get_flatten_guard", qual="RolloutBuffer.get", start=r"^if (not )?\(?self\.generator_ready", end=None, kind="test",
+         inputs=[("ready", "bool")], subst={"self.generator_ready": "ready"}),
+    dict(name="dictrollout_get_flatten_guard", qual="DictRolloutBuffer.get", start=r"^if (not )?\(?self\.generator_ready", end=None, kind="test",
+         inputs=[("ready", "bool")], subst={"self.generator_ready": "ready"}),
+    dict(name="rollout_get_sets_ready", qual="RolloutBuffer.get", start=r"^self\.generator_ready = ", end=None, kind="expr", ret="bool", inputs=[]),
+    dict(name="dictrollout_get_sets_ready", qual="DictRolloutBuffer.get", start=r"^self\.generator_ready = ", end=None, kind="expr", ret="bool", inputs=[]),
 ]
